@@ -63,6 +63,36 @@ def chan_of(conn):
     return CH if conn == 0 else '%s%d' % (CH, conn + 1)
 
 
+def brace_traps(piece):
+    """byte offsets p (0 < p < len) such that piece[:p] ends with "}" and contains as
+    many "{" as "}": where a brace-counting completeness test is fooled"""
+    out = []
+    depth = 0
+    for i, ch in enumerate(piece[:-1]):
+        if ch == 0x7b:
+            depth += 1
+        elif ch == 0x7d:
+            depth -= 1
+            if depth == 0:
+                out.append(i + 1)
+    return out
+
+
+WIRE_KEYS = ['name', 'value', 'id', 'args', 'kwargs', 'meta', 'errors', 'channels', 'success', 'failure', 'notify']
+STRUCT_STRINGS = ['closing } first', 'x}y', '{0}} and {{1}', ']"}', 'a{2}}', '}', '[{"name": 1}]', ', : " \\ \' [ ] {',
+                  '~ ~~ }~', '"value": "name":', '}  ', '{"id": 0, "name": "x"}~~']
+
+
+def wire_object(r, depth=0):
+    """an object whose keys collide with the wire format's own keys, nested"""
+    d = {'name': r.choice(['alice', 7, None]), 'value': r.choice([1, 'v', [1, 2]])}
+    for k in r.sample(WIRE_KEYS, r.randint(1, 4)):
+        d[k] = r.choice([0, 'x', None, True, [1, {'name': 'n', 'id': 3}]])
+    if depth < 2 and r.random() < 0.6:
+        d[r.choice(['meta', 'kwargs', 'inner'])] = wire_object(r, depth + 1)
+    return d
+
+
 def line(k, id=0, a=0, b=0, c=0, s=''):
     return {'k': k, 'id': int(id), 'a': int(a), 'b': int(b), 'c': int(c), 's': s}
 
@@ -71,17 +101,24 @@ class Piece:
     """A run of stream bytes without delimiter, seen by the model as n cells of
     weight w; offs[j] = byte offset of cell boundary j (offs[0]=0, offs[n]=len)."""
 
-    def __init__(self, nbytes, n, w, rnd):
+    def __init__(self, nbytes, n, w, rnd, forced=None, avoid=()):
+        """forced: byte offset of cell boundary 1 (the model's trap position of a
+        "brace" payload); avoid: offsets other boundaries must not fall on"""
         self.nbytes = nbytes
         self.n = n
         self.w = w
         offs = [0]
-        for j in range(1, n):
+        if forced is not None and n >= 2 and 0 < forced < nbytes - (n - 2):
+            offs.append(forced)
+        for j in range(len(offs), n):
             lo = max(offs[-1] + 1, (j * nbytes) // n - nbytes // (4 * n))
             hi = min(nbytes - (n - j), (j * nbytes) // n + nbytes // (4 * n))
             if hi < lo:
                 hi = lo
-            offs.append(rnd.randint(lo, hi))
+            o = rnd.randint(lo, hi)
+            while o in avoid and o < nbytes - (n - j):
+                o += 1
+            offs.append(o)
         offs.append(nbytes)
         self.offs = offs
 
@@ -97,6 +134,7 @@ class Stream:
         self.rbyte = 0         # bytes read
         self.packets = []      # dicts: start, end (payload bytes, end excl. final delimiter), kind, sid, hostile
         self.bounds = []       # byte positions of read boundaries so far
+        self.has_trap = False
 
     def append(self, data, kind, sid=0, big=False, hostile=False, tag=''):
         """data = payload(s) + trailing delimiter as written; cells are derived
@@ -120,7 +158,16 @@ class Stream:
                 n = -(-len(pc) // 1400)          # a huge piece: as many weight-4 cells as 4 KiB reads need
             n = max(1, min(n, len(pc))) if len(pc) else 0
             if n:
-                p = Piece(len(pc), n, w, self.rnd)
+                traps = brace_traps(pc) if nparts == 1 else []
+                forced = None
+                if traps:
+                    # boundary 1 = right behind the first "}" that balances the braces before it,
+                    # or behind blanks that follow it
+                    forced = traps[0]
+                    while forced < len(pc) - 1 and pc[forced:forced + 1] == b' ' and self.rnd.random() < 0.5:
+                        forced += 1
+                    self.has_trap = True
+                p = Piece(len(pc), n, w, self.rnd, forced, set(traps))
                 for j in range(n):
                     self.cells.append((pos + p.offs[j], pos + p.offs[j + 1], w))
             pos += len(pc)
@@ -443,6 +490,14 @@ class World:
         r = self.rnd
         if v == 2:
             val = {'blob': _text(r, r.randint(4200, 4400)), 'sid': sid}
+        elif v == 3:
+            val = r.choice([wire_object(r), [wire_object(r), sid], {'rows': [wire_object(r)], 'sid': sid}])
+            if isinstance(val, dict):
+                val.setdefault('sid', sid)
+        elif v == 4:
+            val = r.choice(['closing } first %d' % sid, 'x}y %d' % sid, ['a{2}} %d' % sid, {'k': '}'}]])
+        elif v == 5:      # harness only: strings full of structural characters
+            val = [sid] + r.sample(STRUCT_STRINGS, 4) + [{'fmt': '{0}} and {{1}', 'k': 'x}y'}]
         else:
             val = r.choice([['r', sid], 'res-%d' % sid, {'sid': sid, 'ok': True, 'n': None}, sid * 1000 + 7,
                             {'nested': [sid, [1.5, 'x'], {'k': 'v'}]}, 'résultat %d ✓' % sid])
@@ -475,6 +530,20 @@ class World:
                 args.append('til~~~de')
         elif pay == 'valkey':
             kwargs['value'] = r.choice([1, 'v', None])
+        elif pay == 'wirekey':
+            # objects with the wire format's own keys, as argument and as keyword arguments
+            args.insert(1, wire_object(r))
+            kwargs['value'] = r.choice([1, 'v', None])
+            kwargs['name'] = r.choice(['n', 2])
+            for k in r.sample(['id', 'args', 'kwargs', 'meta', 'errors', 'channels', 'success'], r.randint(0, 3)):
+                kwargs[k] = r.choice([0, 'x', wire_object(r, 2)])
+        elif pay == 'brace':
+            # a string whose "}" is not balanced inside the text before it (first thing after the send id)
+            args.insert(1, r.choice(['closing } first', 'x}y', '}', 'a{2}} b', 'tail }  ']))
+        elif pay == 'struct':      # harness only: strings full of structural characters
+            args[1:1] = r.sample(STRUCT_STRINGS, 4) + [{'k': 'x}y', 'fmt': '{0}} and {{1}'}]
+            kwargs['pattern'] = 'a{2}}'
+            kwargs['tail'] = '}' 
         ev = Event.create(name, *args, **kwargs)
         ev.channels = r.choice([(), (ch,), (ch, 'aux')])
         ev.success = r.random() < 0.5
